@@ -521,6 +521,15 @@ var httpStatus = map[string]int{
 	"StatusUnprocessableEntity": 422, "StatusBadGateway": 502, "StatusGatewayTimeout": 504, "StatusAccepted": 202,
 }
 
+// standard-library calls that change state shared by the whole process: a handler or client that makes one is not
+// independent of what other goroutines do meanwhile, however briefly it restores the old value
+var processState = map[string]bool{
+	"syscall.Umask": true, "syscall.Chdir": true, "syscall.Chroot": true, "syscall.Setuid": true, "syscall.Setgid": true, "syscall.Setenv": true,
+	"os.Chdir": true, "os.Setenv": true, "os.Unsetenv": true, "os.Clearenv": true, "os.Exit": true,
+	"log.SetOutput": true, "log.SetFlags": true, "log.SetPrefix": true, "rand.Seed": true, "signal.Notify": true, "signal.Ignore": true,
+	"debug.SetGCPercent": true, "runtime.GOMAXPROCS": true, "http.Handle": true, "http.HandleFunc": true, "time.LoadLocationFromTZData": false,
+}
+
 func funcID(p *pkg, fd *ast.FuncDecl) string {
 	r := ""
 	if fd.Recv != nil && len(fd.Recv.List) == 1 {
@@ -541,6 +550,7 @@ type funcFacts struct {
 	file     string   // the source file (base name) the function is declared in
 	indexing []string // run-time-checked accesses: x[i], x[a:b], x.(T) without comma-ok (each can panic)
 	shapes   []string // the same accesses as shapes (identifiers replaced by _)
+	procst   []string // calls that change state of the whole PROCESS (umask, working directory, environment, default loggers …)
 	recvw    []string // assignments through a pointer receiver (state kept on a handler / client / reader value)
 }
 
@@ -612,6 +622,11 @@ func (p *pkg) funcFacts(globals map[string]bool) []funcFacts {
 						}
 					}
 				case *ast.CallExpr:
+					if se, ok := x.Fun.(*ast.SelectorExpr); ok {
+						if id, ok := se.X.(*ast.Ident); ok && !locals[id.Name] && processState[id.Name+"."+se.Sel.Name] {
+							ff.procst = append(ff.procst, id.Name+"."+se.Sel.Name)
+						}
+					}
 					if se, ok := x.Fun.(*ast.SelectorExpr); ok && se.Sel.Name == "Close" {
 						ff.events = append(ff.events, "close:"+exprString(se.X))
 					}
@@ -1102,6 +1117,23 @@ func main() {
 			rts = append(rts, leanStr(k))
 		}
 		sort.Strings(rts)
+		fmt.Fprintf(&f, "/-- calls that change state of the whole process (umask, working directory, environment, default logger …), per function -/\ndef %sProcessStateCalls : List (String × List String) := [", pk.name)
+		first = true
+		for _, ff := range facts {
+			if len(ff.procst) == 0 {
+				continue
+			}
+			if !first {
+				f.WriteString(", ")
+			}
+			first = false
+			var ws []string
+			for _, w := range ff.procst {
+				ws = append(ws, leanStr(w))
+			}
+			fmt.Fprintf(&f, "(%s, [%s])", leanStr(ff.id), strings.Join(ws, ", "))
+		}
+		f.WriteString("]\n")
 		fmt.Fprintf(&f, "/-- the receiver types whose methods assign through the receiver -/\ndef %sReceiverWriteTypes : List String := [%s]\n", pk.name, strings.Join(rts, ", "))
 		// per-FILE aggregates in a form that renaming an identifier or moving code between the functions of a file does
 		// not change: these are what the pinned obligations compare
